@@ -360,6 +360,13 @@ fn supervisor(property: &str, tier: &str) -> i32 {
     let _ = std::fs::remove_file(crumbs_path(property));
     let _ = std::fs::remove_file(hang_flag_path(property));
     std::env::set_var("VERIF_HANG_FLAG", hang_flag_path(property));
+    // the thorough tier first re-proves determinism on a sample (a simulator whose runs do not replay decides nothing)
+    if tier == "thorough" && std::env::var("VERIF_RETRIED").is_err() {
+        let saved = std::env::var("VERIF_THREADS").ok();
+        let rc = determinism_check(2_000, Some(property));
+        match saved { Some(v) => std::env::set_var("VERIF_THREADS", v), None => std::env::remove_var("VERIF_THREADS") }
+        if rc != 0 { return 2; }
+    }
     let end = run_child(&["--worker", property, tier], limit, false);
     if !end.timed_out {
         match end.code {
@@ -522,9 +529,15 @@ fn replay_outer(file: &str) -> i32 {
 
 fn selftest_determinism(args: &[&str]) -> i32 {
     let n: u64 = args.first().and_then(|s| s.parse().ok()).unwrap_or(20_000);
+    determinism_check(n, None)
+}
+
+/// Same runs, several processes and worker counts: the per-run logs must hash identically.
+fn determinism_check(n: u64, only: Option<&str>) -> i32 {
     let seed = crate::seed();
     let mut bad = 0;
     for property in PROPERTIES {
+        if let Some(p) = only { if p != property { continue; } }
         let spec = match build_spec(property, "quick", seed) { Some(s) => s, None => continue };
         for ph in &spec.phases {
             if ph.chunk() == 1 { continue; } // child-process phases: observation is an exit status
